@@ -115,6 +115,18 @@ def credsErr (site : CredsSite) (e : GoErr) : GoErr :=
     wrapped by a plain error. On the SendMsg path `err` is io.EOF (the attempt's stream is already done). -/
 def retryExhausted (e : GoErr) : GoErr := .wrapped e
 
+/-- `status.FromContextError(err)`. -/
+def fromContextError : GoErr → GoErr
+  | .nil => .nil
+  | .ctxDeadline => .status codeDeadlineExceeded
+  | .ctxCanceled => .status codeCanceled
+  | _ => .status codeUnknown
+
+/-- stream.go `shouldRetry`, last `select`: the RPC's context ends while the retry backoff timer runs:
+    `return false, status.FromContextError(cs.ctx.Err()).Err()`. This error goes retryLocked → withRetry
+    (uncommitted path) → RecvMsg / SendMsg / newClientStream → the application with no further conversion. -/
+def retryBackoffCtxDone (ctxErr : GoErr) : GoErr := fromContextError ctxErr
+
 /-- What the application gets when the pick blocks until the context ends. -/
 def ctxEnd (deadline : Bool) : GoErr := .status (if deadline then codeDeadlineExceeded else codeCanceled)
 
